@@ -67,7 +67,11 @@ PROP = dict(
          "all equal, large values up to 2^40, two values, odd values, one negative weight) x initial partition family "
          "(uniform, one-sided, round robin, all in the last part, two heavy parts, single part; 2..8 parts; made valid "
          "-- every id up to the maximum used -- 4 times out of 5) x weight type (i64, or f64 holding the same integers, "
-         "1 case in 3) x a malformed stream (partition array shorter/longer/empty); distinct = distinct (algorithm, "
+         "1 case in 3) x a malformed stream (partition array shorter/longer/empty); the negative stream has two families: "
+         "one negative weight among non-negative ones, and all weights <= 0 with at least one zero and one negative "
+         "(maximum exactly 0); plus a REUSE stream (about 30 % of the cases): one VnBest / VnFirst value serves a sequence "
+         "of 2-4 calls (its own output again, new weights on that output, another length), each call a case of its own; "
+         "distinct = distinct (algorithm, "
          "weight type, weights, partition); non-trivial = matching lengths, at least 3 weights, at least two parts in "
          "the input, not all weights zero",
     class_names={0: "Ok, partition unchanged", 5: "Ok, at least one element moved", 1: "InputLenMismatch",
